@@ -1,2 +1,25 @@
-(* placeholder until the theorems are integrated *)
-From SE Require Import Model.System.
+(* C05 - Labels come only from the event's own tags and its own rule. *)
+From SE Require Import Spec.PipelineSpec Proofs.PipelineProofs.
+
+(* the label set handleEvent computes is a function of the event's tags and the matched rule's
+   labels alone (no exporter state, no other event, no cache content) ... *)
+Theorem C05_labels_local : stmt_labels_local.
+Proof. exact labels_local_ok. Qed.
+Print Assumptions C05_labels_local.
+
+(* ... merged as documented: the rule's value wins unless honor_labels, then the tag's ... *)
+Theorem C05_merge_semantics : stmt_merge_semantics.
+Proof. exact merge_semantics_ok. Qed.
+Print Assumptions C05_merge_semantics.
+
+(* ... and the registry updates exactly the series with that name and those label values. *)
+Theorem C05_series_identity : stmt_series_identity.
+Proof. exact series_identity_ok. Qed.
+Print Assumptions C05_series_identity.
+(* That the mapping answer itself ([mapped]) is the rule the configuration prescribes, whatever the
+   cache holds, is C13_cache_invisible; that tag keys are escaped is C09 (sem_single). *)
+
+Example C05_merge_example :
+  merge_labels false [([x6b], [x74])] [([x6b], [x72])] = [([x6b], [x72])] /\
+  merge_labels true  [([x6b], [x74])] [([x6b], [x72])] = [([x6b], [x74])].
+Proof. vm_compute. auto. Qed.
